@@ -124,7 +124,10 @@ CLAIMS = {
              "window, empty affixes, start beyond the end) and that its memcmp stays inside both objects; that __Pyx_PyList_Pop and "
              "__Pyx__PyList_PopIndex (l.pop(), l.pop(i); mutable size and element array as ghost state) either return the right element "
              "with the size decremented and the elements above moved down by one (memmove inside the element array), or call CPython's "
-             "own list.pop on the UNCHANGED list with the original index; (b) for a catalogue of builtin "
+             "own list.pop on the UNCHANGED list with the original index; that __Pyx_PyList_Append, __Pyx_ListComp_Append and "
+             "__Pyx_PyObject_Append (l.append(x), comprehensions) either store x in slot `size` INSIDE the allocated slots, raise the size by "
+             "one and write nothing else, or call CPython's own PyList_Append on the unchanged list, or - for a non-list receiver - make "
+             "the Python-level call L.append(x) and map a NULL result to -1; (b) for a catalogue of builtin "
              "calls on C integers (abs, min / max with 2-4 operands of mixed C types and constants, nested min/max, bool()) the C function "
              "the working-tree compiler emits returns, for ALL argument values, the value Python's semantics give the same source text "
              "(reference evaluator dv/pyref.py over the catalogue's own ast, validated against CPython every run). Kernel: these helpers "
@@ -132,8 +135,9 @@ CLAIMS = {
         note="Trusted: dv C front end, dv/pyobj.py (PyBytes_AS_STRING / PyBytes_GET_SIZE contracts: len + 1 readable chars), memcmp's C "
              "contract, the transcription of CPython 3.12 _Py_bytes_tailmatch (validated against bytes.startswith/endswith every run), z3. "
              "Recorded finding: abs() of the most negative C integer (witness replayed every run). NOT covered: non-bytes affixes (buffer "
-             "protocol path), tuples of affixes, str methods (delegated to CPython's PyUnicode_Tailmatch), list/dict/set/bytearray method "
-             "helpers (pop, pop_index, dict_getitem_default, py_dict_pop, ...), len/sum/any/all/sorted/isinstance/ord/chr and the "
+             "protocol path), tuples of affixes, str methods (delegated to CPython's PyUnicode_Tailmatch), reference counts (Py_INCREF before "
+             "the store is not modelled), the dict/set/bytearray method helpers (dict_getitem_default, py_dict_pop, py_set_remove, ...), "
+             "len/sum/any/all/sorted/isinstance/ord/chr and the "
              "type-constructor replacements, wrong-type / None / subclass argument paths, Builtin.py signatures.",
         ref="4 C13"),
     "C14": dict(
@@ -152,6 +156,22 @@ CLAIMS = {
              "run-time step (Python iteration protocol), object loop targets, enumerate, dict/set/str/bytes/C-array iteration, "
              "dict_iter/set_iter helpers and the mutation-during-iteration RuntimeError.",
         ref="4 C14"),
+    "C20": dict(
+        text="Proof, for a catalogue of expression and assignment shapes whose leaves are calls of external C functions (binary and unary "
+             "operators, nested call arguments, and / or chains, conditional expressions, chained comparisons, min / max / abs, tuple, "
+             "cascaded and augmented assignment, if statements, conditionals inside arguments), that the C function the working-tree "
+             "compiler emits calls the leaves in exactly the order Python's evaluation rules give for the same source text - left to "
+             "right, each at most once, stopping where and / or / conditional expressions / chained comparisons stop - and returns "
+             "Python's value, for ALL leaf values: every leaf is a contract that appends its identity to a ghost call trace, the expected "
+             "trace is computed from the catalogue's own ast by a reference evaluator (validated against CPython's exec with logging "
+             "leaves on every run). Kernel: C-typed leaves in these shapes only.",
+        note="Trusted: dv C front end, z3, the reference evaluator (spec-validated natively, 20k cases per run). ASSUMED: the C compiler "
+             "evaluates the operands of one C expression from left to right (indeterminately sequenced in C11 6.5.2.2p10; what gcc and "
+             "clang do for calls) - Cython emits several leaf calls inside one C expression. Recorded finding (KNOWN-FINDING, witness "
+             "replayed every run): a plain C call that is emitted inline runs AFTER a right-hand sibling that needs a temporary. NOT "
+             "covered: Python-object operands, attribute / subscript targets, unpacking of iterables, dict / set displays, "
+             "keyword / star arguments, ExpandInplaceOperators on non-name targets.",
+        ref="4 C20"),
     "C19": dict(
         text="Proof (a) on the abstract CPython object model that the comparison helpers of Optimize.c::PyObjectCompare taken from the "
              "generated module answer like CPython: __Pyx_PyObject_CompareIntInt<Op> for all six operators and both result kinds "
@@ -265,13 +285,18 @@ CLAIMS = {
              "functions. Proof (FP theory, same fmod symbol) that the FloorDivFloat helper is bit-identical to CPython's float_floor_div "
              "for ALL doubles a (incl. inf / nan) and b != 0, and that the C function the working-tree compiler emits for `a // b` on C "
              "doubles raises ZeroDivisionError for b == 0 and otherwise returns that value (C's floor(a / b) under cdivision=True). "
-             "Kernel: float modulo, float floor division and float-constant binops.",
+             "Proof, for the float(str/bytes/bytearray) fast path, that __Pyx__PyBytes_AsDouble_IsSpace is Py_ISSPACE on ASCII and that "
+             "__Pyx__PyBytes_AsDouble_Copy (loop invariant over a ghost count of non-underscore characters, termination) either refuses "
+             "(NULL: CPython's own parser decides) or has removed only underscores PEP 515 allows - none first or last, none directly "
+             "after `_ . e E + -`, none directly before `_ . e E` - leaving the text without them plus NUL inside the caller's buffer. "
+             "Kernel: float modulo, float floor division, float-constant binops and these two parsing helpers.",
         note="Trusted: dv C front end, z3's FP theory, the C11 contract of fmod/copysign, the float_rem transcription (validated "
              "against float.__mod__ each run); for PyFloatBinop the IEEE operations and the int -> double conversion are uninterpreted "
              "functions shared by subject and specification (ASSUMED per converted term: not NaN, sign, zero only for 0, below 2**53 "
              "exactly when the magnitude is), PyLong_AsDouble / tp_richcompare are CPython's own. NOT covered: the Remainder variant of "
-             "PyFloatBinop, floor division of doubles, int()/round() of doubles, float parsing (pyunicode_as_double: a string grammar, "
-             "no contract within reach - seed C06-b is missed).",
+             "PyFloatBinop, int()/round() of doubles, the rest of float parsing (PyOS_string_to_double is CPython's; the inf/nan "
+             "spellings, the whitespace loops and the dispatch of __Pyx__PyBytes_AsDouble are not under contract; that a fully parsed "
+             "text consists of digits, '.', 'e', 'E' and signs is the argument that turns 'between digits' into the adjacency clause).",
         ref="4 C06"),
     "C07": dict(
         text="Proof on the abstract CPython object model that __Pyx__PyNumber_PowerOf2 (the `2 ** n` fast path, taken from the C the "
@@ -291,11 +316,15 @@ CLAIMS = {
              "run): whatever (offset, length) the emission branch of lzss_compress encodes, the bytes it appends decode under the shared "
              "format spec to exactly (offset-length, length) and are consumed exactly - and the back-reference branch of the C "
              "decompressor __pyx_lzss_decompress implements that format spec, copies from the right place, stays in bounds and never "
-             "overlaps (memcpy), for all byte values. Kernel: the per-item encode/decode pair of all three encodings plus literals.",
+             "overlaps (memcpy), for all byte values. And the WHOLE C decompressor, both loops by invariants over a ghost token stream "
+             "(one flags byte per 8 tokens; the back-reference branch enters through the contract proved for it): for every well-formed "
+             "stream it consumes EXACTLY the compressed length and never reads the source or writes the destination outside their extents. "
+             "Kernel: the per-item encode/decode pair of all three encodings plus literals, and the decoder's loop structure.",
         note="Trusted: dv front ends (fragment extraction drops the rest of both functions), z3, idiom lemmas, memcpy's C contract. ASSUMED, "
              "not proved: find_longest_match returns a real match within the window (its postcondition is the fragment's precondition); "
-             "the flag-byte grouping and termination of both outer loops; zlib/bz2/zstd paths are CPython's. A native whole-compressor "
-             "round trip through the real C decompressor backs the replay.",
+             "the stream well-formedness the decoder unit requires (= the postcondition of lzss_compress as a whole: flag-byte grouping, "
+             "exact length, padding of its outer loop); termination of both outer loops; the decoded content at function level; "
+             "zlib/bz2/zstd paths are CPython's. A native whole-compressor round trip through the real C decompressor backs the replay.",
         ref="4 C12"),
     "C49": dict(
         text="Proof of field-exact postconditions with whole-heap frames for the mutators of StringIOTree on an address-based heap "
@@ -315,8 +344,9 @@ CLAIMS = {
              "invariant re-established, no other set object changed; and Regexps.Seq.__init__: the nullable / match_nl flags equal "
              "their definition over the items (they decide where begin-of-line transitions are generated); and the epsilon closure of "
              "the subset construction (DFA.add_to_epsilon_closure, recursive, by its own contract with a loop invariant over an arbitrary "
-             "iteration order of a set; DFA.epsilon_closure with the data-structure invariant 'every memoised closure is complete'): the "
-             "result contains the state, is closed under epsilon moves and holds only reachable states. Kernel only.",
+             "iteration order of a set; DFA.epsilon_closure with the data-structure invariant 'every memoised closure is complete'; "
+             "DFA.set_epsilon_closure, two nested set loops, against the frame contract of epsilon_closure): the "
+             "result contains the state(s), is closed under epsilon moves and holds only reachable states. Kernel only.",
         note="Trusted: dv Python front end (heap as address-indexed arrays; list cells typed by position through the invariant), z3. "
              "Assumed: only the closure rules of the ghost reachability relation (used positively). Termination of the recursion is not proved. "
              "Unverified: TransitionMap.add/add_set/items, NFA construction (build_machine), the rest of nfa_to_dfa, the scanner loop - the global "
@@ -349,7 +379,10 @@ NOT_APPLICABLE = {
     "C01": "whole-compiler semantic preservation over all programs: the postcondition would be a refinement between CPython's semantics and emitted C; no contract within reach expresses or decides it",
     "C08": "floating-point algorithms through libm (hypot/atan2/exp/pow) whose results are implementation-defined to the last ulp; equality of two FP programs is not decided by SMT FP theories beyond syntactic identity",
     "C17": "__Pyx_BufFmt_CheckString is a 600-line recursive parser over a mutable context; its specification is the struct-module grammar x C ABI alignment rules; no inductive invariant of tractable size",
-    "C20": "relational property of the code generator over all expression shapes; the only contract form restates compiler correctness per node class",
+    "C21": "not reached: the property is carried by the reaching-definitions fixpoint of FlowControl.check_definitions over arbitrary control-flow graphs; a contract would need the data-flow lattice and its fixpoint as specification, and the emitted definedness checks are program-dependent; no unit was built (seed C21-b is missed)",
+    "C43": "by nature: 'no internal exception for EVERY input text' is a whole-compiler totality property, no per-function contract expresses it; instances found under other properties (the b'\\777' crash under C10) were repaired there",
+    "C46": "not reached: transitive_merge_helper is a depth-first search with cycle heads and a cache of partial results; its completeness invariant (what a node inside a cycle may cache) is a research-size inductive invariant, and only a bounded enumeration of small graphs would stand in, which is a different technique - nothing is claimed (seed C46-b is missed)",
+    "C47": "not reached: strip_string_literals is a 100-line hand-written scanner over unbounded text with nested f-string state; its specification is Python's tokenizer (a grammar that would have to be modelled); no contract was built (seed C47-b is missed)",
     "C22": "trace property of emitted code for all try/finally nestings plus Exceptions.c helpers over CPython thread state; not a per-function contract",
     "C23": "protocol over whole call histories implemented in ~2.5 kLOC of C against CPython internals; no sub-function carries the property",
     "C24": "ParseKeywordsImpl needs a model of PyDict_Next / unicode interning; the per-signature unpacking code is program-dependent",
